@@ -204,7 +204,37 @@ def c08(ctx):
                 k += 1
                 if canon(got) != canon(es):
                     ctx.violation('spec', f'round trip through {suf or "plain"} file differs', {'entries': es, 'got': got})
-        ctx.count('text:files', k, k, dist={'formats': 5})
+        # ... and what the parser makes of a text does not depend on how the file is stored: non-canonical texts (CR LF and lone CR line
+        #     ends, signed frames, blank lines) written byte for byte under every compressed name load exactly as under the plain name
+        import bz2 as _bz2
+        import gzip as _gzip
+        import lzma as _lzma
+        enc = {'': lambda b: b, '.gz': _gzip.compress, '.bz2': _bz2.compress, '.lzma': lambda b: _lzma.compress(b, format=_lzma.FORMAT_ALONE), '.xz': _lzma.compress}
+        body = 'DATA a 0\nIGNORE x\n\nDIST d.tar 3 SHA1 00\n'
+        frame = '-----BEGIN PGP SIGNED MESSAGE-----\nHash: SHA512\n\n' + body + '-----BEGIN PGP SIGNATURE-----\n\nAAAA\n-----END PGP SIGNATURE-----\n'
+        odd = [body, frame, body.replace('\n', '\r\n'), frame.replace('\n', '\r\n'), body.replace('\n', '\r'), frame.replace('\n', '\r'),
+               'DATA a 0\r\nDATA b 1\n', 'DATA a 0 \r\n\r\n', frame.replace('\n\nDATA', '\r\n\r\nDATA'), 'DATA a\x0c0\n', 'DATA a 0\x1c\n', 'DATA a 0']
+        odd += [t for t, x in list(zip(texts, im))[:(40 if quick else 400)] if not has_surrogate(t)]
+        kk = 0
+        for t in odd:
+            res = {}
+            for suf, comp in enc.items():
+                p = os.path.join(td, 'Manifest' + suf)
+                with open(p, 'wb') as f:
+                    f.write(comp(t.encode('utf8')))
+                m2 = gmm.ManifestFile()
+                try:
+                    with gc.open_potentially_compressed_path(p, 'r', encoding='utf8') as f:
+                        m2.load(f, verify_openpgp=False)
+                    res[suf] = ['ok', [impl.entry_sx(e) for e in m2.entries]]
+                except Exception as e:
+                    res[suf] = ['err', type(e).__name__]
+                os.unlink(p)
+                kk += 1
+            if any(v != res[''] for v in res.values()):
+                ctx.violation('spec', f'the same text loads differently depending on the compression of the file: {dict((k2 or "plain", str(v)[:60]) for k2, v in res.items())}',
+                              {'text': t, 'results': {k2 or 'plain': v for k2, v in res.items()}})
+        ctx.count('text:files', k + kk, k + kk, dist={'formats': 5, 'non_canonical_texts_stored_under_each_format': len(odd)})
     finally:
         import shutil
         shutil.rmtree(td, ignore_errors=True)
